@@ -12,7 +12,7 @@ const tickNanos = int64(1) << 30 // span of the timer wheel's finest level
 
 // Mismatch is one disagreement between the cache and the reference model.
 type Mismatch struct {
-	Class     string // ret | expired | event | unreported | overflow | early | bound | load | refresh | deadline | tooearly | sweep | stats | calc | views
+	Class     string // ret | expired | event | unreported | overflow | early | bound | load | refresh | deadline | tooearly | sweep | stats | calc | calcexp | views
 	Detail    string
 	OnExpired bool // the operation was applied to a key whose entry had expired but was not swept yet
 }
@@ -650,6 +650,8 @@ func (m *Model) walk(log []Event) {
 			}
 		case EvExecPanic:
 			m.execPanics++
+		case EvClockAdv:
+			m.now += ev.N
 		case EvNested:
 			cur := m.live(ev.Key)
 			if ev.Found != (cur != nil) || (cur != nil && cur.v != ev.Old) {
@@ -731,7 +733,11 @@ func (m *Model) end() {
 		case pwInstall:
 			c := m.cfg
 			if (c.Weighted() && !p.wSeen) || (c.WithExp() && !p.expSeen) || (c.WithRef() && !p.refSeen) {
-				m.fail("calc", "installing key %d: weigher/calculators were not consulted (weigher %v, expiry %v, refresh %v)", p.key, p.wSeen, p.expSeen, p.refSeen)
+				class := "calc"
+				if c.WithExp() && !p.expSeen {
+					class = "calcexp" // the stored deadline is not the one the expiry policy dictates: the entry leaves at the wrong time (also a C07 matter)
+				}
+				m.fail(class, "installing key %d: weigher/calculators were not consulted (weigher %v, expiry %v, refresh %v)", p.key, p.wSeen, p.expSeen, p.refSeen)
 				return
 			}
 			if cur := m.phys[p.key]; cur != nil {
